@@ -1,5 +1,6 @@
 import Yaql.Drv.Util
 import Yaql.Model.Parser
+import Yaql.Model.EngineHist
 /-! Driver for C02 (and the parser part of C03).
 
 `{"p":"C02","op":"table", "base":[records], "inserts":[...]}` replays `insert_operator` calls on an
@@ -169,10 +170,33 @@ def parseCase (c : Cfg) (j : Json) : Json :=
     | .error (.grammar (some p)) => jo [("grammar", jn p)]
   else jerr "bad token"
 
+/-! ### host histories (`Model/EngineHist`): `{"op":"history","base":[..],"delegates":b,"hops":[{"op":"insert",..} |
+{"op":"create"} | {"op":"copy","i":n}]}` -> the engines in creation order, each with its root and the operator list
+it parses by, and the factory's list at the end -/
+
+def hostOpOf (j : Json) : Option (Yaql.EngineHist.HostOp Unit) :=
+  match jstr j "op" with
+  | "insert" => (insertOf j).map fun i =>
+      .insert ⟨i.existing, i.existingBinary, i.sym, i.ty, i.createGroup, i.alias⟩
+  | "create" => some (.create ())
+  | "copy" => some (.copy (jnat j "i") ())
+  | _ => none
+
+def historyJ (base : OpList) (delegates : Bool) (hops : List (Yaql.EngineHist.HostOp Unit)) : Json :=
+  let w := Yaql.EngineHist.exec (fun _ _ => ()) { ops := base, delegates := delegates } hops
+  jo [("engines", jl (w.engines.map fun e => jo [("root", jn e.root), ("snap", opListJ e.snap),
+                                                 ("delegates", .bool e.delegates)])),
+      ("operators", opListJ w.ops)]
+
 def handle (req : Json) : Json :=
   match opListOfReq req with
   | none => jerr "bad operator record"
   | some (base, ins) =>
+   if jstr req "op" == "history" then
+    let hops := (jarr req "hops").map hostOpOf
+    if hops.all Option.isSome then historyJ base (jbool req "delegates") (hops.filterMap id)
+    else jerr "bad host operation"
+   else
     let (ops, steps) := replay base ins
     match buildOperatorTable ops with
     | .error (.invalidOperatorTable sym) =>
